@@ -97,7 +97,24 @@ def groups(tier, rng):
             h = g.Conv(cfg)
             h.add(b"HELO probe.example\r\n"); h.add(b"NOOP\r\n")
             helo.append(h.case(seg="line"))
-    return [Group("conv/ehlo-all-configurations", cases, exhaustive=True, project=project, theorems=THEOREMS),
+    # the second capability list of a connection, after things have happened on it: a successful AUTH, an envelope, RSET, a refused
+    # STARTTLS.  What is advertised depends on the configuration and the TLS state only — a client that re-reads the list (the go-smtp
+    # client does after Reset) must find the same extensions
+    again = []
+    for ins, tls, lmtp, auth in itertools.product((0, 1), ("none", "implicit"), (0, 1), (1, 2)):
+        cfg = dict(utf8=1, reqtls=1, binmime=1, dsn=1, rrvs=1, maxmsg=77, maxrcpt=3, tls=tls, insecure=ins, authsess=1,
+                   mechs=(hx(b"PLAIN") + ":" + hx(b"X-MECH")) if auth == 1 else "-", lmtp=lmtp)
+        hello = (b"LHLO" if lmtp else b"EHLO")
+        for mid in ([b"AUTH PLAIN AGFiAHB3"], [b"AUTH PLAIN AGFiAHB3", b"RSET"], [b"MAIL FROM:<s@x>", b"RCPT TO:<a@x>"], [b"RSET"], [b"STARTTLS"],
+                    [b"AUTH PLAIN AGFiAHB3", b"MAIL FROM:<s@x> AUTH=<>"]):
+            c = g.Conv(cfg)
+            c.add(hello + b" first.example\r\n")
+            for m in mid:
+                c.add(m + b"\r\n")
+            c.add(hello + b" second.example\r\n"); c.add(b"NOOP\r\n")
+            again.append(c.case(seg=rng.choice(["line", "one"]), rng=rng))
+    return [Group("conv/second-capability-list", again, project=project, theorems=THEOREMS),
+            Group("conv/ehlo-all-configurations", cases, exhaustive=True, project=project, theorems=THEOREMS),
             Group("conv/probes-respelled", variants, project=project, theorems=THEOREMS),
             Group("conv/helo-all-configurations", helo, exhaustive=True, project=project, theorems=THEOREMS)]
 
